@@ -400,8 +400,56 @@ func runC17(c *Ctx) {
 				}
 			})
 		}
+		// ... or not copied at all: which new targets are additions is decided by looking them up in the
+		// current configuration (form C).  The new configuration is then handleDiffs' only *Configuration parameter.
+		formC := false
+		fCur := P.Field("target", "Config", "configuration")
+		isGetTargetOf := func(v ssa.Value, cur bool) bool {
+			v = unwrap(v)
+			if u, ok := v.(*ssa.UnOp); ok && u.Op == token.MUL {
+				if al, ok := u.X.(*ssa.Alloc); ok {
+					if sv := singleStore(al); sv != nil {
+						v = unwrap(sv)
+					}
+				}
+			}
+			call, ok := v.(*ssa.Call)
+			if !ok || calleeName(&call.Call) != "(*proto/target.Configuration).GetTarget" {
+				return false
+			}
+			a := unwrap(call.Call.Args[0])
+			if cur {
+				return fCur != nil && loadOfField(a, fCur)
+			}
+			_, isP := a.(*ssa.Parameter)
+			return isP
+		}
 		if cfgParam == nil {
-			c.Unresolved("C17.classify", "the copy of <new configuration>.GetTarget() into a local pending map in handleDiffs (loop or maps.Clone)")
+			var cps []*ssa.Parameter
+			for _, pp := range hd.Params {
+				if isNamed(pp.Type(), "proto/target", "Configuration") {
+					cps = append(cps, pp)
+				}
+			}
+			existedLookup := false
+			instrs(hd, func(in ssa.Instruction) {
+				if lk, ok := in.(*ssa.Lookup); ok && lk.CommaOk && isGetTargetOf(lk.X, true) {
+					if ex, ok := lk.Index.(*ssa.Extract); ok && ex.Index == 1 {
+						if nx, ok := ex.Tuple.(*ssa.Next); ok {
+							if rg, ok := nx.Iter.(*ssa.Range); ok && isGetTargetOf(rg.X, false) {
+								existedLookup = true
+							}
+						}
+					}
+				}
+			})
+			if len(cps) == 1 && existedLookup {
+				cfgParam = cps[0]
+				formC = true
+			}
+		}
+		if cfgParam == nil {
+			c.Unresolved("C17.classify", "the copy of <new configuration>.GetTarget() into a local pending map in handleDiffs (loop or maps.Clone), or a lookup of the new names in the current configuration")
 			return
 		}
 		isLocalMap := func(v ssa.Value) bool {
@@ -433,6 +481,24 @@ func runC17(c *Ctx) {
 		})
 		cls := func(e *PPA, st *State, rv RV) string {
 			rv = e.Resolve(st, rv)
+			if formC {
+				switch v := rv.V.(type) {
+				case *ssa.Lookup:
+					if !v.CommaOk && isGetTargetOf(e.Resolve(st, RV{rv.F, v.X}).V, false) {
+						return "NT"
+					}
+				case *ssa.Extract:
+					if lk, ok := v.Tuple.(*ssa.Lookup); ok && lk.CommaOk && v.Index == 1 && isGetTargetOf(e.Resolve(st, RV{rv.F, lk.X}).V, true) {
+						return "EXISTED"
+					}
+					// the new target a range over the new configuration's targets yields
+					if nx, ok := v.Tuple.(*ssa.Next); ok && v.Index == 2 {
+						if rg, ok := nx.Iter.(*ssa.Range); ok && isGetTargetOf(rg.X, false) {
+							return "NEWT"
+						}
+					}
+				}
+			}
 			switch v := rv.V.(type) {
 			case *ssa.Lookup:
 				x := e.Resolve(st, RV{rv.F, v.X})
@@ -526,7 +592,7 @@ func runC17(c *Ctx) {
 			{"request edited", true, true, true, "update"},
 			{"both edited", true, true, false, "update"},
 		} {
-			at := &Atoms{Class: cls, Bool: map[string]bool{"NT": sc.nt, "RCH": sc.rch, "TEQ": sc.teq, "HASADD": true, "HASUPD": true, "HASDEL": true}}
+			at := &Atoms{Class: cls, Bool: map[string]bool{"NT": sc.nt, "RCH": sc.rch, "TEQ": sc.teq, "HASADD": true, "HASUPD": true, "HASDEL": true, "EXISTED": true, "NEWT": true}}
 			e := &PPA{Cond: at.Cond, MaxVisits: mv, TraceBranches: true, Watch: func(ev *Ev) bool {
 				return isHandler(ev) || ev.Label == "builtin:delete" || ev.Label == "if" || strings.HasPrefix(ev.Label, "store:target.Update.") || strings.HasPrefix(ev.Label, "mapupdate:")
 			}}
@@ -560,9 +626,9 @@ func runC17(c *Ctx) {
 				case "delete":
 					ok = nDel == it && nUpd == 0 && nDrop == 0
 				case "none":
-					ok = nDel == 0 && nUpd == 0 && nDrop == it
+					ok = nDel == 0 && nUpd == 0 && (nDrop == it || formC)
 				case "update":
-					ok = nDel == 0 && nUpd == it && nDrop == it
+					ok = nDel == 0 && nUpd == it && (nDrop == it || formC)
 					for j := range p.Trace {
 						if handlerOf(&p.Trace[j]) == hUpd {
 							good, d := reqFromNew(p, j, hUpd)
@@ -583,6 +649,26 @@ func runC17(c *Ctx) {
 				}
 			}
 			c.Floor("C17.classify/"+sc.name, n, 1)
+		}
+		// form C: a new name that exists (non-nil) in the current configuration is not announced as added, any other is
+		if formC {
+			for _, existed := range []bool{true, false} {
+				at := &Atoms{Class: cls, Bool: map[string]bool{"EXISTED": existed, "NEWT": true, "NT": true, "TEQ": true, "RCH": false, "HASADD": true, "HASUPD": true, "HASDEL": true}}
+				e := &PPA{Cond: at.Cond, MaxVisits: 2, Watch: isHandler}
+				e.Run(hd)
+				c.Paths += len(e.Paths)
+				c.Scen++
+				adds, paths := 0, 0
+				for i := range e.Paths {
+					paths++
+					adds += e.Paths[i].Count(func(ev *Ev) bool { return handlerOf(ev) == hAdd })
+				}
+				if existed {
+					c.Check(adds == 0 && paths > 0, "C17.classify", fnName(hd), "a name of the current configuration is not announced as added", P.Pos(hd.Pos()), fmt.Sprintf("%d Add calls on %d paths", adds, paths))
+				} else {
+					c.Check(adds > 0, "C17.classify", fnName(hd), "a name the current configuration does not have is announced as added", P.Pos(hd.Pos()), fmt.Sprintf("%d Add calls on %d paths", adds, paths))
+				}
+			}
 		}
 		// a handled set really suppresses the Add: found => no Add on any path, not found => every Add-loop iteration adds
 		if len(handled) > 0 {
